@@ -13,7 +13,7 @@ use std::path::{Path, PathBuf};
 use std::sync::Arc;
 
 pub fn count(tier: Tier) -> u64 {
-    tier.pick(160, 800)
+    tier.pick(160, 4000)
 }
 
 pub fn gen(seed: u64, tier: Tier, k: u64) -> Value {
